@@ -30,7 +30,10 @@ class L1Cost(BaseCost):
         super().__init__(param)
 
     def _fit(self, X, y=None):
-        self.X_ = as_2d_array(X).astype(float)
+        # C-contiguous copy: numpy's summation order depends on the memory layout, and a user cost
+        # should be a function of the values only (DESIGN s7: layout-dependent rounding at a
+        # threshold of exactly 0 was a false alarm of the twin monitor)
+        self.X_ = np.ascontiguousarray(as_2d_array(X), dtype=float)
         return self
 
     def _evaluate_optim_param(self, starts, ends):
